@@ -34,7 +34,7 @@ def build_driver():
 
 def gen_cases(ctx):
     """TLC enumerates the contract's cases. -> (list of case dicts, TlcResult) or (None, r)"""
-    r = vlib.tlc("Gen_Err", timeout=600, quiet=True)
+    r = vlib.tlc("Gen_Err", timeout=600, quiet=True, workers=4)
     if vlib.tlc_infra_failed(r) or r.rc != 0:
         return None, r
     cases = r.jsons()
@@ -94,7 +94,7 @@ def make_commands(ctx, cases, fns, faults_on_valid_sweeps):
 def run_commands(ctx, drv, cmds, tag):
     """Execute the commands in parallel shards with crash recovery.
     -> (result lines, heap event lines, crashes=[(cmd, fail_k, rc, stderr_tail)], hangs)"""
-    nsh = min(vlib.NCPU, max(1, len(cmds) // 8))
+    nsh = min(8, max(1, len(cmds) // 8))
     byfn = collections.OrderedDict()
     for c in cmds:
         byfn.setdefault(c["fn"], []).append(c)
@@ -154,7 +154,7 @@ def run_commands(ctx, drv, cmds, tag):
         heap = vlib.read_ndjson(heapp)
         return res, heap, crashes, hangs
 
-    outs = vlib.parallel([(lambda si=si, sh=sh: work(si, sh)) for si, sh in enumerate(shards) if sh], n=vlib.NCPU)
+    outs = vlib.parallel([(lambda si=si, sh=sh: work(si, sh)) for si, sh in enumerate(shards) if sh], n=8)
     res, heap, crashes, hangs = [], [], [], []
     for r, h, c, g in outs:
         res += r; heap += h; crashes += c; hangs += g
@@ -246,7 +246,7 @@ def validate_heap(ctx, calls, invariants, tag, max_viol_per_fn=6):
             break
         return fn, accepted, states, viol, rej, infra
 
-    outs = vlib.parallel([(lambda fn=fn, lst=lst: one(fn, lst)) for fn, lst in byfn.items()], n=max(2, vlib.NCPU // 2))
+    outs = vlib.parallel([(lambda fn=fn, lst=lst: one(fn, lst)) for fn, lst in byfn.items()], n=6)
     acc = sum(o[1] for o in outs)
     st = sum(o[2] for o in outs)
     viol = [v for o in outs for v in o[3]]
@@ -380,7 +380,7 @@ def run(ctx):
                        "replay": "echo '<command>' | build/bin/drv_err-asanrel-* /dev/stdout /dev/null"})
 
     # ---- E1 / E2 / fault lines judged by TLC against the contract
-    n, bad, r = vlib.validate_lines(ctx, "Trace_Err", res, timeout=900)
+    n, bad, r = vlib.validate_lines(ctx, "Trace_Err", res, timeout=900, workers=4)
     if n < len(res):
         ctx.note_inconclusive("Trace_Err evaluated %d of %d lines (rc=%s)" % (n, len(res), r.rc))
     ev.cov["lines_judged_by_tlc"] = n
@@ -540,7 +540,7 @@ def selftest(ctx, res, calls):
         rows.append(dict(au, post=au["plain"])); rows.append(dict(au, rc=0))
         rows.append(dict(au, post=[(x + 1) % 256 for x in au["pre"]]))
     if rows:
-        n, bad, r = vlib.validate_lines(ctx, "Trace_Err", rows, timeout=300)
+        n, bad, r = vlib.validate_lines(ctx, "Trace_Err", rows, timeout=300, workers=2)
         if n == len(rows) and len(bad) == len(rows):
             n_ok += len(rows)
         else:
@@ -583,7 +583,7 @@ def run_heap_selftests(ctx, muts, invariants, tag):
         got = viol[0][0] if viol else ("reject" if rej else ("accepted" if acc else "none"))
         return want, got, infra
     n_ok = 0
-    for want, got, infra in vlib.parallel([(lambda k=k, w=w, m=m: one(k, w, m)) for k, (w, m) in enumerate(muts)], n=8):
+    for want, got, infra in vlib.parallel([(lambda k=k, w=w, m=m: one(k, w, m)) for k, (w, m) in enumerate(muts)], n=4):
         if got == want:
             n_ok += 1
         else:
